@@ -29,6 +29,9 @@ type WOpts struct {
 	// options are applied in order, nil entries are skipped, the last one of a kind wins). An
 	// evaluation that touches a decoy is reported as not having completed normally.
 	Shuffle uint64 `json:"shuffle,omitempty"`
+	// shape (not on the wire; set by the worker from the case id): which Go shape the logger and
+	// the big-segment provider handed to the library have (implkinds.go)
+	shape uint64
 }
 
 type decoyBS struct{ hits *[]string }
@@ -318,12 +321,12 @@ func newSetupGeneric(opts *WOpts, store *realStore, ms *mutableStore, bs *WBS) *
 	}
 	if bs != nil {
 		s.bs = &realBS{w: bs}
-		options = append(options, evaluation.EvaluatorOptionBigSegmentProvider(s.bs))
+		options = append(options, evaluation.EvaluatorOptionBigSegmentProvider(bsShape(opts.shape, s.bs)))
 	}
 	switch {
 	case opts.Log:
 		s.log = &captureLogger{}
-		options = append(options, evaluation.EvaluatorOptionErrorLogger(s.log))
+		options = append(options, evaluation.EvaluatorOptionErrorLogger(loggerShape(opts.shape, s.log)))
 	case opts.LogMode == "nilopt":
 		options = append(options, evaluation.EvaluatorOptionErrorLogger(nil))
 	}
@@ -340,14 +343,14 @@ func newSetupGeneric(opts *WOpts, store *realStore, ms *mutableStore, bs *WBS) *
 		final := []evaluation.EvaluatorOption{evaluation.EvaluatorOptionEnableSecondaryKey(opts.Sec)}
 		bsStated, logStated := true, true
 		if s.bs != nil {
-			final = append(final, evaluation.EvaluatorOptionBigSegmentProvider(s.bs))
+			final = append(final, evaluation.EvaluatorOptionBigSegmentProvider(bsShape(opts.shape, s.bs)))
 		} else if r.bool() {
 			final = append(final, evaluation.EvaluatorOptionBigSegmentProvider(nil))
 		} else {
 			bsStated = false
 		}
 		if s.log != nil {
-			final = append(final, evaluation.EvaluatorOptionErrorLogger(s.log))
+			final = append(final, evaluation.EvaluatorOptionErrorLogger(loggerShape(opts.shape, s.log)))
 		} else if r.bool() || opts.LogMode == "nilopt" {
 			final = append(final, evaluation.EvaluatorOptionErrorLogger(nil))
 		} else {
@@ -395,6 +398,7 @@ func (s *evalSetup) evalOnce(flag *ldmodel.FeatureFlag, ctx ldcontext.Context, r
 		s.log.lines = nil
 	}
 	obs = WObs{Outcome: "done", Events: []WEvent{}, Logs: [][2]string{}, EventsOK: true}
+	sinkLogger, sinkBS = s.log, s.bs
 	s.decoyHits = nil
 	defer func() {
 		if len(s.decoyHits) > 0 && obs.Outcome == "done" {
@@ -493,6 +497,7 @@ func runEval(c *EvalCase) {
 	}
 	c.Ctx = dumpCtx(ctx, c.Ctx.Inv)
 	c.Rx = regexOracle(c)
+	c.Opts.shape = hashStr("shape/" + c.ID)
 	setup := newSetup(&c.Opts, store, c.BS)
 	obs := setup.evalOnce(flag, ctx, c.Opts.Rec, logKeysFor(c))
 	c.Go = &obs
